@@ -9,6 +9,10 @@ CLAIMED = {
          "Machine-checked proof (Lean 4, no sorry/axioms beyond propext/Classical.choice/Quot.sound) that the model of splitMessage satisfies the executable C11 predicate for every text and every SplitLen (lossless, bounded, marker, non-empty, default 450); the model is tied to the working tree by regenerated facts (constants, separator table, normalised function bodies) and by a differential run of the real splitMessage against the compiled model, with the Spec predicate also evaluated on the implementation's own output.",
          "Trusted: Lean kernel; the go/ast extractor; the Go harness and compiled driver; Go's strings.LastIndex and slicing as transcribed in lean/Goirc/Go/Bytes.lean. The tie is sampled (counts in the evidence), the theorem is not.",
          "6 (C11)"),
+ "C08": ("Lean 4 theorem over an inductive model of all 28 command methods (case analysis + list lemmas) + go/ast facts + differential correspondence",
+         "Machine-checked proof that for every command constructor, every byte string in every argument position, every SplitLen and every behaviour of ToUpper on non-ASCII input, each line the model puts on the outgoing queue is free of CR/LF and begins with the method's verb, and that the bytes write emits re-split at CRLF into exactly those lines. Tied to the tree by facts (only Raw sends on conn.out; the exported methods reaching Raw are exactly the modelled ones; verb constants; normalised bodies of Raw, write, cutNewLines, splitArgs and every command method) and by a differential run of every method on a real Conn against the compiled model, with the Spec predicate evaluated on the implementation's queue contents.",
+         "Trusted: Lean kernel; extractor; harness + driver; fmt.Sprintf/Sprintln (Privmsgf/ln are modelled as Privmsg of the formatted string); bufio write+flush delivering the queued line followed by CRLF (write's body is pinned by a fact; bytes on a real connection are compared in C09's correspondence).",
+         "6 (C08)"),
 }
 ALL = [l for l in open(os.path.join(V, "properties.jsonl"))]
 ids = [json.loads(l)["id"] for l in ALL]
